@@ -10,7 +10,7 @@ pub fn meta() -> Meta {
     Meta {
         rule: "events = e+d, e-d, +=, -=, e+/-Unit, e+/-=Unit, e+f64 (integer seconds, |x|*1e9 < 2^53), the identities (e+d)-e==d, (e+d)-d==e, e+(f-e)==f for same-scale pairs, and cross-scale f-e for all 81 scale pairs. Expected: scale preserved; parts == canonical(clamp(E +/- D)); cross-scale difference == f.duration - reading of e's instant in f's scale by M-SCALE (exact for uniform scales and UTC, +-30 ns when ET/TDB is involved; instants with no UTC pre-image are don't-care). Generation: reading lattice x duration lattice restricted so that no bound is hit, stratified random readings (year 1..9999 and beyond) and durations of either sign, all nine scales, across century boundaries and across each leap second for UTC. Non-trivial = negative reading, negative duration, result crosses a century boundary or zero, cross-scale pair, UTC operand within 40 s of a leap second; distinct = distinct (reading, scale, duration) hashes among those.",
         assumptions: &["M-SCALE / M-LEAP / M-DYN models; 30 ns tolerance when ET/TDB is involved (statement of C07)"],
-        mandatory: &["add/negative-reading", "add/negative-duration", "add/crosses-century", "diff/cross-scale-uniform", "diff/cross-scale-utc", "diff/cross-scale-dyn", "diff/near-leap-second", "addf64/integer-seconds"],
+        mandatory: &["add/negative-reading", "add/negative-duration", "add/crosses-century", "diff/cross-scale-uniform", "diff/cross-scale-utc", "diff/cross-scale-dyn", "diff/near-leap-second", "addf64/integer-seconds", "addf64/beyond-i64-ns"],
         thorough_scale: 50,
         exhaustive_part: "reading lattice x duration lattice x nine scales (no-bound subset)",
     }
@@ -110,10 +110,20 @@ pub fn check_f64(rep: &mut Rep, e_c: i128, s: TimeScale, secs: i64) {
     if !in_range(e_c + secs as i128 * NS_S) {
         return;
     }
+    // only whole seconds whose nanosecond count is exactly representable as a double (so that the float product
+    // of C18 is exact): either below 2^53 ns or with enough trailing zero bits
+    let ns = secs as i128 * NS_S;
+    if (secs as f64) as i64 != secs || crate::model::flt::trunc_i128(secs as f64 * 1e9) != ns {
+        return;
+    }
     if !rep.tick() {
         return;
     }
     rep.class("addf64/integer-seconds");
+    if ns.abs() > i64::MAX as i128 {
+        rep.class("addf64/beyond-i64-ns");
+        rep.nt(h64(&[9, e_c as u64, scale_idx(s), secs as u64]));
+    }
     let e = ep(e_c, s);
     let x = secs as f64;
     match guard(|| e + x) {
@@ -222,6 +232,11 @@ pub fn run(cfg: &Cfg, rep: &mut Rep) {
         if k % 16 == 0 {
             check_unit(rep, e_c, s);
             check_f64(rep, e_c, s, r.range_i64(-9_007_199, 9_007_199));
+            // larger whole seconds with an exactly representable nanosecond count (multiples of 2^k), up to +-10000 years
+            let k = r.range_i64(10, 30) as u32;
+            let big = (r.range_i64(-(315_576_000_000 >> k), 315_576_000_000 >> k)) << k;
+            check_f64(rep, e_c, s, big);
+            check_f64(rep, e_c, s, *r.pick(&[9_300_000_000i64, -9_300_000_000, 9_223_372_800, -9_223_372_800, 10_000_000_000, 100_000_000_000, -31_557_600_000]));
         }
         // cross-scale difference
         let sj = r.below(9) as usize;
